@@ -312,10 +312,14 @@ def history_check(binary, seed, tier, tcfg, results, outdir):
         idxs = sorted(int(k) for k in (r.get("ref_digests") or {}))
         for pos, i in enumerate(idxs):
             seen.setdefault(i, []).append((r["ref_digests"][str(i)], "worker %d" % w, idxs[:pos + 1]))
-    sample = sorted(seen)
+    # every hand-written bundle (the lowest indices: each exists for one special shape, and the workers'
+    # strides put them all into different processes) plus a random sample of the generated ones
+    special = [i for i in sorted(seen) if i < 24]
+    sample = [i for i in sorted(seen) if i >= 24]
     rnd = random.Random(seed)
     rnd.shuffle(sample)
-    sample = sample[: (32 if tier == "quick" else 160)]
+    sample = special + sample[: (24 if tier == "quick" else 140)]
+    rnd.shuffle(sample)
     orders = {"shuffled": list(sample), "reversed": list(reversed(sample))}
     for tag, order in orders.items():
         d = _refdigest(binary, seed, gen, order, outdir, tag, env_tag=tag)
